@@ -450,6 +450,27 @@ def firstElem (cfg : Cfg) : List Tok → Option (Name × List Attr × List Tok)
   | .start n as :: body => some (n, blankFrom cfg n as, body)
   | _ => none
 
+/-! ### a stream error where a stream header is expected (`internal/stream.Expect`)
+
+While a header is expected the same `reader.Token` runs in negotiating mode behind
+`decl.Skip` (which drops a leading XML declaration).  Only the clause of C08 that concerns it is
+modelled: a stream error in that position is returned as that error. -/
+
+/-- class of the error negotiation ends with when the peer's first element is a stream error
+("other" for anything else: a header, another element, malformed input) -/
+def expectHeader1 : List Tok → String
+  | .start n as :: rest =>
+    if n.space == nsStream && n.loc == "error" then
+      (match (verdict 0 (.start n as) rest).2 with
+       | .err (.streamError c) => (Err.streamError c).name
+       | _ => "other")
+    else "other"
+  | _ => "other"
+
+def expectHeader : List Tok → String
+  | .procInst t i :: ts => if t == "xml" then expectHeader1 ts else expectHeader1 (.procInst t i :: ts)
+  | ts => expectHeader1 ts
+
 /-! ### what the peer sees: top-level elements written -/
 
 /-- split a token list into its top-level elements (text between elements is dropped; an
